@@ -204,6 +204,21 @@ CHECKS = {
                 "divisor; floating point modelled as reals.",
         "technique": SOLVER_TECH + "; generated C parsed and given C semantics over the same proxies; gcc on replay",
     },
+    "C15": {
+        "level": "model_checking",
+        "text": "Bounded symbolic model checking: (a) CoefficientCollector is run on 33 affine / non-affine skeletons x 4 target "
+                "sets with every numeric coefficient a symbolic unbounded integer; z3 proves sum(coeff*var)+const == e for "
+                "every environment and every coefficient value, coefficients are free of targets, non-affine inputs raise. (b) "
+                "gaussian_elimination runs on matrices whose entries and right-hand sides are symbolic integers in [-1,1] "
+                "(thorough: larger shapes, [-2,2]); Euclid's loops are run out by realising divisors; z3 proves per path that "
+                "the solution set over real unknowns is unchanged in both directions. (c) solve_affine_equations_for on 121 "
+                "small systems: z3 proves the returned assignments satisfy every equation for all parameter values; "
+                "uniqueness/integrality oracle by exact rational elimination.",
+        "design_ref": "DESIGN.md §4 C15",
+        "note": "Trusted: evaluator (C02) for coefficient expressions, z3, the harness's rational row-reduction oracle. The "
+                "Gaussian-elimination claim is bounded by the entry box.",
+        "technique": SOLVER_TECH + "; symbolic divisors realised by value-forking",
+    },
 }
 
 _PENDING = "check not built yet in this session (the design in DESIGN.md applies; will be claimed once its harness exists)"
